@@ -25,7 +25,7 @@ def greedy_drop(label, F, n_drop):
 
 class C15(Check):
     ID = "C15"
-    IMPORTS = "From PV Require Import Model.Dominance Model.RankCrowd."
+    IMPORTS = "From PV Require Import Model.Dominance Model.RankCrowd Model.Crowding Model.Fallback Model.Kernels."
     ISOLATE = True
     RULE = ("RankAndCrowding(crowding_func=cf).do on populations whose first front is a generated non-dominated front (2..4 objectives, continuous and tie-rich) that has to be "
             "truncated, every number of members to drop, cf in cd / pcd (2 objectives on the compiled engine) / ce / mnn / 2nn; per-objective min and max of the front before "
@@ -87,9 +87,31 @@ class C15(Check):
         return None
 
     def coq(self, case, obs):
-        return surv.survival_term(case, obs)
+        """the truncation with recorded oracle answers AND every crowding vector it used against the metric models"""
+        main = surv.survival_term(case, obs)
+        pre, parts, aux = [], [main], {}
+        for cc in obs.get("crowd_calls", []):
+            F = decarr(cc["F"], 2)
+            if F.size == 0:
+                continue
+            d = np.array([float.fromhex(h) for h in cc["d"]])
+            logs = [(float.fromhex(a), float.fromhex(b)) for a, b in cc["logs"]]
+            t = crowd.metric_term(case["cf"], F, cc["n_remove"], d, logs=logs, argpart=cc["argpart"], engine="compiled")
+            if isinstance(t, tuple):
+                pre.append(t[0]); parts.append(t[1])
+                for k, v in t[2].items():
+                    aux[k] = "(%s) || (%s)" % (aux[k], v) if k in aux else v
+            elif t is not None:
+                parts.append(t)
+        term = " && ".join("(%s)" % p for p in parts)
+        if pre:
+            return "\n".join(pre), term, aux
+        return term
 
     def known(self, case, obs, msg):
+        a = getattr(self, "aux", {}).get(getattr(self, "cur", None), {})
+        if msg == "correspondence" and a.get("oob") and case["cf"] == "pcd":
+            return "compiled/pcd/OOB"
         # the duplicated-neighbour defect of the compiled mnn kernel changes the drop order: only if the kernel model confirms it
         if case["cf"] == "mnn" and msg.startswith("C15-pruning"):
             F = np.array(case["F"], dtype=float)
